@@ -495,11 +495,14 @@ fn gen_tdf(rng: &mut Rng) -> TdfD {
     let mut chosen: Vec<u8> = idxs.into_iter().take(n).collect();
     chosen.sort_unstable();
     let small = rng.chance(3, 4);
+    // one font in eight has (nearly) all glyphs at (nearly) the largest size: its glyph data block passes 32767 bytes, the
+    // point where the 16-bit offsets of the glyph table stop fitting a signed number
+    let huge = !small && rng.bool();
     let glyphs = chosen
         .into_iter()
         .map(|i| {
-            let w = if small { 1 + rng.usize(6) } else { 1 + rng.usize(30) } as u8;
-            let h = if small { 1 + rng.usize(4) } else { 1 + rng.usize(12) } as u8;
+            let w = if small { 1 + rng.usize(6) } else if huge { 28 + rng.usize(3) } else { 1 + rng.usize(30) } as u8;
+            let h = if small { 1 + rng.usize(4) } else if huge { 11 + rng.usize(2) } else { 1 + rng.usize(12) } as u8;
             let mut data = Vec::new();
             for row in 0..h {
                 for _ in 0..w {
@@ -666,7 +669,7 @@ impl Prop for C17 {
         "C17"
     }
     fn rule(&self) -> &'static str {
-        "bitmap fonts (8 x 1..=32, 256 glyphs, 512 for PSF2; all-zero / all-one / random glyph bytes, some starting with a PSF magic number; every built-in page 0..=42 and every SAUCE font) are sent through PSF2 bytes, raw data (create_8, from_basic, from_bytes), the DCS CTerm:Font sequence fed to the real ANSI parser (also after an OSC 8 / OSC 4 / APS / sixel / macro / other font sequence on the same parser), and embedding in XBin (1 and 2 fonts), ADF, IDF and IcyDraw files written and loaded by the engine (with and without a custom palette in the same file, for IDF / ADF / one-font XBin also with the font in slot 3, every cell on page 3 and the stock font in slot 0, with and without a SAUCE record that names the stock font 'IBM VGA' while the embedded glyphs differ; IcyDraw also under empty, non-ASCII and long font names, and every built-in page and SAUCE font also as the font object itself - under its own name - in slots 0, 1, 3, 100 and 255 of an IcyDraw file, with and without the stock font in slot 0); size, glyph count and every glyph must be bit-identical. TheDraw fonts (outline/block/colour, 0..=94 glyphs up to 30x12, names 0..=12, spacing 0..=40, bundles of 1..=34) are written with as_tdf_bytes / create_font_bundle, checked by an independent TDF reader in the harness (writer side) and re-read with from_tdf_bytes (reader side, glyph table via hook H5). distinct_nontrivial = distinct (path, height, glyph count, data class) / (bundle size, glyph layout) fingerprints"
+        "bitmap fonts (8 x 1..=32, 256 glyphs, 512 for PSF2; all-zero / all-one / random glyph bytes, some starting with a PSF magic number; every built-in page 0..=42 and every SAUCE font) are sent through PSF2 bytes, raw data (create_8, from_basic, from_bytes), the DCS CTerm:Font sequence fed to the real ANSI parser (also after an OSC 8 / OSC 4 / APS / sixel / macro / other font sequence on the same parser), and embedding in XBin (1 and 2 fonts), ADF, IDF and IcyDraw files written and loaded by the engine (with and without a custom palette in the same file, for IDF / ADF / one-font XBin also with the font in slot 3, every cell on page 3 and the stock font in slot 0, with and without a SAUCE record that names the stock font 'IBM VGA' while the embedded glyphs differ; IcyDraw also under empty, non-ASCII and long font names, and every built-in page and SAUCE font also as the font object itself - under its own name - in slots 0, 1, 3, 100 and 255 of an IcyDraw file, with and without the stock font in slot 0); size, glyph count and every glyph must be bit-identical. TheDraw fonts (outline/block/colour, 0..=94 glyphs up to 30x12 - one font in eight with every glyph near that size, a glyph data block beyond 32767 bytes -, names 0..=12, spacing 0..=40, bundles of 1..=34) are written with as_tdf_bytes / create_font_bundle, checked by an independent TDF reader in the harness (writer side) and re-read with from_tdf_bytes (reader side, glyph table via hook H5). distinct_nontrivial = distinct (path, height, glyph count, data class) / (bundle size, glyph layout) fingerprints"
     }
     fn meta(&self, ctx: &Ctx) -> Value {
         json!({"floor_evaluations": 1000, "floor_distinct": ctx.tier.pick(800u64, 5000u64),
